@@ -114,3 +114,20 @@ Proof.
   - cbn. repeat split; try reflexivity. repeat constructor; lia.
   - vm_compute. reflexivity.
 Qed.
+(* ---- open finding C40-3: the full statement (no hashability side condition on set members) and its refutation;
+   C40_roundtrip_23 is the partial theorem: its `supported` demands set_build / dict_build = Some ..., which fails exactly
+   when a deserialised member / key is unhashable (bytearray) ---- *)
+Definition C40_full_statement : Prop :=
+  forall bs : list Z, Forall (fun b => 0 <= b < 256) bs ->
+  let v := GSet Z Z Z Z Z Z [GBlob Z Z Z Z Z Z BBytes bs] in
+  exists j, serialize23 Z Z Z Z Z Z nv_str nv_str nv_str nv_str nv_str nv_kind nv_str V3 v = Some j /\
+            deserialize23 Z Z Z Z Z Z nv_parse nv_parse nv_parse nv_none nv_none nv_parse nv_parse_z nv_none nv_wkt nv_geqb V3 j
+            = Some (norm Z Z Z Z Z Z v).
+
+(* {b'\x00'}: written as g:Set [gx:ByteBuffer "AA=="], the reader raises TypeError (unhashable bytearray) *)
+Theorem C40_set_of_blobs_refuted : ~ C40_full_statement.
+Proof.
+  intros H. destruct (H [0]) as (j & E1 & E2); [repeat constructor; lia|].
+  vm_compute in E1. injection E1 as <-. vm_compute in E2. discriminate E2.
+Qed.
+Print Assumptions C40_set_of_blobs_refuted.
